@@ -71,6 +71,15 @@ func c14IcCheck(res *vh.Result, cfg *icCfg) func(r *icRun, x *vrt.Sched, cost in
 				continue
 			}
 			k, v := g.Op.K, g.Got
+			// past its deadline: the answer came out of the secondary tier, and the copy's deadline had passed by the
+			// time that (possibly slow) read handed it over - the lookup had the means to notice
+			for _, c := range hy.sec.log {
+				if c.Ctx == any(g) && c.Op == "get" && c.K == k && c.Found && c.V == v && c.Expire != 0 && c.EndNow >= c.Expire {
+					obs = append(obs, "X")
+					viol("past-deadline", "secondary-copy-expired-before-the-read-completed:"+g.Op.Kind,
+						fmt.Sprintf("%s returned %d from the secondary tier; the copy's deadline %d had passed when the secondary read completed (clock %d)", g.Op, v, c.Expire, c.EndNow))
+				}
+			}
 			var wv *c14IcWrite
 			for _, w := range writes[k] {
 				if w.kind != "del" && w.v == v {
@@ -220,6 +229,9 @@ func c14IcDrivers() []*icCfg {
 		{Name: "I6-slow-secondary", O: o, Hy: hy(1, 1, true), Pre: demoted, Scripts: [][]icOp{{H(1)}, {T(1), D(1)}}, Post: []icOp{W, Z, H(1)}},
 		// a Delete overlapping the demotion of the same key (the worker is copying the queued entry), then a lookup
 		{Name: "I8-worker-vs-delete", O: o, Hy: hy(1, 1, true), Pre: queued, Scripts: [][]icOp{{D(1)}, {H(2)}}, Post: []icOp{W, Z, H(1)}},
+		// a slow secondary read of a copy whose deadline passes while the read is in progress
+		{Name: "I9-slow-read-vs-deadline", O: o, Hy: hy(1, 1, true), Pre: []icOp{{Kind: "set", K: 1, Cost: 1, TTL: sec}, T(2), W, Z}, Scripts: [][]icOp{{H(1)}, {{Kind: "adv", Arg: 2 * sec}}}, Post: []icOp{W, Z, H(1)}},
+		{Name: "I9L-loading-slow-read-vs-deadline", O: o, Hy: hy(1, 1, true), Loading: true, LoadCost: 1, LoadTTL: long, Pre: []icOp{{Kind: "set", K: 1, Cost: 1, TTL: sec}, T(2), W, Z}, Scripts: [][]icOp{{L(1)}, {{Kind: "adv", Arg: 2 * sec}}}, Post: []icOp{W, Z, L(1)}},
 		{Name: "I7-coin", O: o, Hy: hy(1, 0.5, false), Pre: demoted, Scripts: [][]icOp{{T(1), T(2)}, {H(1)}}, Post: []icOp{W, Z, H(1)}},
 	}
 }
